@@ -89,12 +89,9 @@ fn client_pin_case<const N: usize>() {
     resp.serialize(&mut buffer);
     post(&buffer, &body);
     // bodies are 1 (no member) or 3..=9 bytes long: both outcomes must be reachable wherever they exist
-    if N >= 2 {
-        kani::cover!(1 + body.len <= N);
-    }
-    if N <= 9 {
-        kani::cover!(1 + body.len > N);
-    }
+    // (a cover in a branch that is dead for this N would be reported unsatisfiable, hence the disjunctions)
+    kani::cover!(N < 2 || 1 + body.len <= N);
+    kani::cover!(N > 9 || 1 + body.len > N);
 }
 
 #[kani::proof]
